@@ -245,4 +245,65 @@ theorem run_ok_invariant (id : Nat) : ∀ (pre : List (Nat × Outcome)) (t : Tas
       exact run_ok_invariant id pre _ (completeF_ok_clean ev.1 v t hc) (completeF_ok_waits id ev.1 v hne t hc hw)
         (fun ev' h' => h ev' (by simp [h']))
 
+
+/-! ## round k6: the extension without failure events is the model of the statement -/
+
+
+theorem slotsF_toF : ∀ ts : List Task,
+    slotsF (Task.toFList ts) = (match allRet ts with | some vs => SlotsF.done vs | Option.none => SlotsF.pending)
+  | [] => by simp [Task.toFList, slotsF, allRet]
+  | t :: ts => by
+      have ih := slotsF_toF ts
+      cases t with
+      | ret v =>
+        simp only [Task.toFList, Task.toF, slotsF, allRet, ih]
+        cases allRet ts <;> simp
+      | wait j =>
+        simp only [Task.toFList, Task.toF, slotsF, allRet, ih]
+        cases allRet ts <;> simp
+      | gather k s =>
+        simp only [Task.toFList, Task.toF, slotsF, allRet, ih]
+        cases allRet ts <;> simp
+
+theorem collapseF_toF (k : Kind) (ts : List Task) : collapseF k (Task.toFList ts) = (collapse k ts).toF := by
+  simp only [collapseF, collapse, slotsF_toF]
+  cases allRet ts <;> simp [Task.toF]
+
+mutual
+  theorem startF_toF : ∀ w : W, startF w = (start w).toF
+    | .val c => by simp [startF, start, Task.toF]
+    | .aw id => by simp [startF, start, Task.toF]
+    | .list xs => by simp only [startF, start, startFList_toF xs, collapseF_toF]
+    | .tuple xs => by simp only [startF, start, startFList_toF xs, collapseF_toF]
+    | .dict kvs => by simp only [startF, start, startFKVs_toF kvs, collapseF_toF]
+  theorem startFList_toF : ∀ xs : List W, startFList xs = Task.toFList (startList xs)
+    | [] => by simp [startFList, startList, Task.toFList]
+    | x :: xs => by simp [startFList, startList, Task.toFList, startF_toF x, startFList_toF xs]
+  theorem startFKVs_toF : ∀ kvs : List (String × W), startFKVs kvs = Task.toFList (startKVs kvs)
+    | [] => by simp [startFKVs, startKVs, Task.toFList]
+    | (_, x) :: kvs => by simp [startFKVs, startKVs, Task.toFList, startF_toF x, startFKVs_toF kvs]
+end
+
+mutual
+  theorem completeF_toF (id : Nat) (v : Val) : ∀ t : Task, completeF id (.ok v) t.toF = (complete id v t).toF
+    | .ret x => by simp [completeF, complete, Task.toF]
+    | .wait j => by
+        by_cases h : j = id <;> simp [completeF, complete, Task.toF, h]
+    | .gather k slots => by
+        simp only [Task.toF, completeF, complete, completeFList_toF id v slots, collapseF_toF]
+  theorem completeFList_toF (id : Nat) (v : Val) : ∀ ts : List Task,
+      completeFList id (.ok v) (Task.toFList ts) = Task.toFList (completeList id v ts)
+    | [] => by simp [completeFList, completeList, Task.toFList]
+    | t :: ts => by
+        simp [completeFList, completeList, Task.toFList, completeF_toF id v t, completeFList_toF id v ts]
+end
+
+theorem foldF_toF : ∀ (evs : List (Nat × Val)) (t : Task),
+    (evs.map fun e => (e.1, (Except.ok e.2 : Outcome))).foldl (fun t e => completeF e.1 e.2 t) t.toF
+      = (evs.foldl (fun t e => complete e.1 e.2 t) t).toF
+  | [], t => rfl
+  | e :: evs, t => by
+      simp only [List.map, List.foldl, completeF_toF]
+      exact foldF_toF evs _
+
 end Pyg
